@@ -12,7 +12,9 @@ import GojaModel.C05.Lemmas
 import GojaModel.C05.StrLemmas
 import GojaModel.C05.StrAgree
 import GojaModel.C05.StrToFloat
+import GojaModel.C05.StrToInteger
 import GojaModel.C05.ParseInt
+import GojaModel.C05.OpsSpec
 
 namespace GojaModel.C05.Props
 open GojaModel GojaModel.Num GojaModel.C05
@@ -69,6 +71,11 @@ theorem sameAs_symm_of_canon {a b : Num} (ha : Canon a) (hb : Canon b) : sameAs 
 
 /-- `===` is IEEE equality of the denoted doubles. -/
 theorem strictEquals_eq_spec {a b : Num} (ha : Canon a) (hb : Canon b) :
+    strictEquals a b = specStrictEq a.toF64 b.toF64 := strictEquals_eq_spec' ha hb
+
+/-- `==` between two Numbers takes the same decisions as `===` (`valueInt.Equals` / `valueFloat.Equals` restricted to Number
+operands are `StrictEquals`, tied by translation in `DecTie2.equals_tie`), hence is IEEE equality of the denoted doubles. -/
+theorem looseEquals_eq_spec {a b : Num} (ha : Canon a) (hb : Canon b) :
     strictEquals a b = specStrictEq a.toF64 b.toF64 := strictEquals_eq_spec' ha hb
 
 /-- Map/Set lookup (key normalisation + hash bucket + `SameAs`) is SameValueZero on canonical keys. -/
@@ -176,6 +183,33 @@ through `floatToValue r` — for ALL operands. -/
 theorem div_refines (a b : Num) (r : F64) :
     opDiv a b r = floatToValue ((specDivSpecial (toNumeric a).toF64 (toNumeric b).toF64).getD r) := opDiv_refines' a b r
 
+/-- **Unary minus on a canonical int is the canonical value of the negated double** (`-0` for `0`; `-MinInt64` cannot arise,
+a canonical `valueInt` has magnitude ≤ 2^53). -/
+theorem neg_int_exact {n : Int} (hc : Canon (int n)) (r : F64) : opNeg (int n) r = floatToValue (negF (F64.ofInt n)) :=
+  opNeg_int_exact hc r
+
+/-- `++` / `--` on an int: `floatToValue` of the correctly rounded exact result. -/
+theorem inc_int_path_exact (x : Int) (r : F64) : opInc (int x) r = floatToValue (F64.ofInt (x + 1)) := opInc_int_exact x r
+theorem dec_int_path_exact (x : Int) (r : F64) : opDec (int x) r = floatToValue (F64.ofInt (x - 1)) := opDec_int_exact x r
+
+/-- `%` on two ints: NaN for a zero divisor, `-0` for a zero remainder of a negative dividend, else the canonical value of the
+truncated remainder (sign of the dividend) — IEEE fmod on integer-valued operands. -/
+theorem mod_int_exact (x y : Int) (r : F64) :
+    opMod (int x) (int y) r =
+      if y = 0 then flt F64.canonNaN
+      else if goRem x y = 0 ∧ x < 0 then flt F64.negZero
+      else floatToValue (F64.ofInt (goRem x y)) := opMod_int_exact x y r
+
+/-- **The bitwise operators are ECMAScript's**, for all canonical operands: ToInt32 / ToUint32 of the denoted doubles, the
+32-bit operation (shift counts mod 32), result as a canonical int. -/
+theorem and_spec {a b : Num} (ha : Canon a) (hb : Canon b) : opAnd a b = int (specAnd a.toF64 b.toF64) := opAnd_spec ha hb
+theorem or_spec {a b : Num} (ha : Canon a) (hb : Canon b) : opOr a b = int (specOr a.toF64 b.toF64) := opOr_spec ha hb
+theorem xor_spec {a b : Num} (ha : Canon a) (hb : Canon b) : opXor a b = int (specXor a.toF64 b.toF64) := opXor_spec ha hb
+theorem bnot_spec {a : Num} (ha : Canon a) : opBnot a = int (specBnot a.toF64) := opBnot_spec ha
+theorem shl_spec {a b : Num} (ha : Canon a) (hb : Canon b) : opShl a b = int (specShl a.toF64 b.toF64) := opShl_spec ha hb
+theorem sar_spec {a b : Num} (ha : Canon a) (hb : Canon b) : opSar a b = int (specSar a.toF64 b.toF64) := opSar_spec ha hb
+theorem shr_spec {a b : Num} (ha : Canon a) (hb : Canon b) : opShr a b = int (specShr a.toF64 b.toF64) := opShr_spec ha hb
+
 /-- `_mul` after bd78985: a zero product of two ints with a negative factor is `-0`, for ALL such operands … -/
 theorem mul_int_zero_sign (r : F64) {x y : Int} (h : (x = 0 ∧ y < 0) ∨ (x < 0 ∧ y = 0)) :
     opMul (int x) (int y) r = flt F64.negZero := by
@@ -273,6 +307,19 @@ theorem strToNum_mech_eq_spec (s : List Nat) : StrNum.mech s = StrNum.spec s := 
 and `_toInt` second; `ToNumber` tries them in the other order.  Both orders make the same decisions for EVERY string:
 whenever the integer parse succeeds `_toFloat` succeeds with the same exact value, and an error of both is NaN. -/
 theorem strToFloat_eq_toNumber (t : List Nat) : StrNum.mechToFloatT t = StrNum.mechT t := StrNum.mechToFloatT_eq_mechT t
+
+/-- `Value.ToInteger()` of a string (`asciiString.ToInteger` after c886782), integer-text branch: when `_toInt` succeeds the result
+is that exact integer, which is the integer `ToNumber` denotes. -/
+theorem strToInteger_int_branch {t : List Nat} {i : Int} (hne : t.isEmpty = false)
+    (hinf : (t == StrNum.str "Infinity" || t == StrNum.str "+Infinity") = false) (hminf : (t == StrNum.str "-Infinity") = false)
+    (h : StrNum.stringToInt t = some i) :
+    StrNum.mechToIntegerT t = i ∧ StrNum.mechT t = StrNum.Res.exactInt (decide (i < 0)) i.natAbs :=
+  StrNum.toInteger_int_branch hne hinf hminf h
+
+/-- … and for EVERY other text (empty, Infinity forms, fractions, exponents, integers beyond int64, invalid text): it is
+ToIntegerOrInfinity, clamped to int64, of the double `ToNumber` yields (NaN ↦ 0, ±∞ ↦ the int64 limits). -/
+theorem strToInteger_float_branch {t : List Nat} (h : StrNum.stringToInt t = none) :
+    StrNum.mechToIntegerT t = StrNum.specToIntegerOfRes (StrNum.mechT t) := StrNum.toInteger_float_branch h
 
 /-- the same on an already trimmed string -/
 theorem strToNum_mechT_eq_specT (t : List Nat) : StrNum.mechT t = StrNum.specT t := StrNum.mechT_eq_specT t
